@@ -143,6 +143,10 @@ func (c *Channel) Open() (reterr error) {
 		}
 	}()
 
+	// whatever a previous session left unread is not part of this one (the requeued leftovers of
+	// its login would otherwise pass for this session's banner and prompt)
+	_ = c.Q.DequeueAll()
+
 	c.l.Debug("starting channel read loop")
 
 	// fresh shutdown signalling for this open, Close consumes it
